@@ -234,12 +234,15 @@ def check(pid: str, tier: str, seed: int):
         from maltoolbox.model import Model
         L0 = PM.fixed_language()
         L0['associations'].append(LG.assoc('zlower', 'Aa', 'za', 'Bb', 'zb'))     # a class name that sorts after "extras"
+        L1 = LG.lang([LG.asset('Aa', None, [LG.step('t', 'or'), LG.step('df', 'defense', ttc=LG.TTC_ENABLED), LG.step('dh', 'defense')]),
+                      LG.asset('Cc', None, [LG.step('t', 'or'), LG.step('df', 'defense'), LG.step('dh', 'defense', ttc=LG.TTC_ENABLED)])],
+                     [LG.assoc('Rr', 'Aa', 'ra', 'Cc', 'rc')])
         lgen = LG.LangGen(rng, dup_assoc_names=0.3)
-        langs = [L0, L0] + [lgen.gen() for _ in range(5 if tier == 'quick' else 30)]
+        langs = [L0, L1, L0, L1] + [lgen.gen() for _ in range(5 if tier == 'quick' else 30)]
         n = 150 if tier == 'quick' else 2500
         for i in range(n):
             L = langs[i % len(langs)]
-            m = build_model(impl, rng, L, i % len(langs) < 2)
+            m = build_model(impl, rng, L, i % len(langs) < 4)
             lcf = m.lang_classes_factory
             d = tempfile.mkdtemp(dir=scratch)
             pv, docs = property_violations(impl, m, lcf, d)
